@@ -94,6 +94,9 @@ package bloomsearch
 //@ ghostvar closeOKAtUpdate int      // value of closeOK when Update was last called
 //@ ghostvar updateOKAtTombstone int  // value of updateOK when TombstoneFile was last called
 
+//@ modset store = ghost.creates, ghost.created, ghost.writes, ghost.closeCalls, ghost.closeOK, ghost.aborts, ghost.tombstones, ghost.opens, ghost.updates, ghost.updateOK, ghost.closeOKAtUpdate, ghost.updateOKAtTombstone, ghost.tombstonesAtUpdate
+//@ modset answers = ghost.attempts, ghost.sendRounds, ghost.nilRounds, ghost.updateOKAtNilRound, ghost.sends, ghost.nilsends, ghost.recvs
+
 // Store interfaces: results are unconstrained (any call may fail, in any
 // combination); each call only records that it happened.
 //@ extern DataStore.CreateFile
@@ -111,10 +114,22 @@ package bloomsearch
 //@ ensures ghost.opens == old(ghost.opens) + 1
 
 //@ extern MetaStore.Update
-//@ modifies ghost.updates, ghost.updateOK, ghost.closeOKAtUpdate
+//@ modifies ghost.updates, ghost.updateOK, ghost.closeOKAtUpdate, ghost.tombstonesAtUpdate
+//@ ensures ghost.tombstonesAtUpdate == ghost.tombstones
 //@ ensures ghost.updates == old(ghost.updates) + 1
 //@ ensures ghost.updateOK == old(ghost.updateOK) + (result == nil ? 1 : 0)
 //@ ensures ghost.closeOKAtUpdate == ghost.closeOK
+
+//@ ghostvar tombstonesAtUpdate int   // value of tombstones when Update was last called
+//@ ghostvar mutexLocks int           // successful (*sync.Mutex).TryLock / Lock calls
+//@ ghostvar mutexUnlocks int         // (*sync.Mutex).Unlock calls
+
+//@ extern (*sync.Mutex).TryLock
+//@ modifies ghost.mutexLocks
+//@ ensures ghost.mutexLocks == old(ghost.mutexLocks) + (result ? 1 : 0)
+//@ extern (*sync.Mutex).Unlock
+//@ modifies ghost.mutexUnlocks
+//@ ensures ghost.mutexUnlocks == old(ghost.mutexUnlocks) + 1
 
 //@ extern io.WriteCloser.Write
 //@ modifies ghost.writes
@@ -216,7 +231,7 @@ package bloomsearch
 //@ func (*BloomSearchEngine).handleFlush
 //@ props C05 C06 C08
 //@ requires b != nil
-//@ modifies all
+//@ modifies heaps, $store, $answers
 //@ loop 0 invariant ghost.creates == old(ghost.creates) + 1 && ghost.created == old(ghost.created) + 1
 //@ loop 0 invariant ghost.closeCalls == old(ghost.closeCalls) && ghost.closeOK == old(ghost.closeOK) && ghost.aborts == old(ghost.aborts)
 //@ loop 0 invariant ghost.updates == old(ghost.updates) && ghost.updateOK == old(ghost.updateOK) && ghost.tombstones == old(ghost.tombstones)
@@ -233,6 +248,63 @@ package bloomsearch
 //@ ensures [C06] ghost.nilRounds == old(ghost.nilRounds) && ghost.created > old(ghost.created) ==> ghost.tombstones == old(ghost.tombstones) + 1
 //@ ensures [C06] ghost.nilRounds > old(ghost.nilRounds) ==> ghost.tombstones == old(ghost.tombstones) && ghost.aborts == old(ghost.aborts)
 //@ ensures [C08] old(ghost.recvs[doneChan(ctx)]) > 0 ==> ghost.creates == old(ghost.creates) && ghost.updates == old(ghost.updates) && ghost.nilRounds == old(ghost.nilRounds)
+
+// ---------------------------------------------------------------------------
+// merge.go — commit protocol (C13)
+// ---------------------------------------------------------------------------
+
+// Single flight: when TryLock fails nothing else happens; otherwise the lock is
+// released exactly once on every path.
+//@ func (*BloomSearchEngine).Merge
+//@ props C13
+//@ requires b != nil
+//@ modifies heaps, $store, ghost.mutexLocks, ghost.mutexUnlocks
+//@ ensures ghost.mutexLocks <= old(ghost.mutexLocks) + 1
+//@ ensures ghost.mutexLocks - old(ghost.mutexLocks) == ghost.mutexUnlocks - old(ghost.mutexUnlocks)
+//@ ensures ghost.mutexLocks == old(ghost.mutexLocks) ==> result1 == ErrMergeInProgress && result0 == nil
+//@ ensures ghost.mutexLocks == old(ghost.mutexLocks) ==> ghost.creates == old(ghost.creates) && ghost.updates == old(ghost.updates) && ghost.tombstones == old(ghost.tombstones) && ghost.opens == old(ghost.opens)
+
+// executeMergeGroup returns a pointer only after the writer's Close returned
+// nil; on every failure after CreateFile it aborts and tombstones its own
+// output exactly once. It never calls Update.
+//@ func (*BloomSearchEngine).executeMergeGroup
+//@ props C13
+//@ requires b != nil
+//@ modifies heaps, $store
+//@ loop 3 invariant ghost.creates == old(ghost.creates) + 1 && ghost.created == old(ghost.created) + 1
+//@ loop 3 invariant ghost.closeCalls == old(ghost.closeCalls) && ghost.closeOK == old(ghost.closeOK) && ghost.aborts == old(ghost.aborts)
+//@ loop 3 invariant ghost.updates == old(ghost.updates) && ghost.updateOK == old(ghost.updateOK) && ghost.tombstones == old(ghost.tombstones)
+//@ ensures ghost.creates == old(ghost.creates) + 1
+//@ ensures ghost.updates == old(ghost.updates) && ghost.updateOK == old(ghost.updateOK)
+//@ ensures result2 == nil ==> ghost.created == old(ghost.created) + 1 && ghost.closeOK == old(ghost.closeOK) + 1 && ghost.tombstones == old(ghost.tombstones) && ghost.aborts == old(ghost.aborts)
+//@ ensures result2 != nil ==> result1 == nil
+//@ ensures result2 != nil ==> ghost.tombstones - old(ghost.tombstones) == ghost.created - old(ghost.created)
+//@ ensures ghost.created <= old(ghost.created) + 1 && ghost.created >= old(ghost.created)
+//@ ensures ghost.closeOK >= old(ghost.closeOK)
+
+// merge: Update at most once, only after every group's output was closed
+// successfully and before any tombstone; without a commit every created output
+// is tombstoned and nothing else is; the three result shapes mean what the
+// property says.
+//@ func (*BloomSearchEngine).merge
+//@ props C13
+//@ requires b != nil
+//@ modifies heaps, $store
+//@ loop 8 invariant -1 <= $index && ghost.updates == old(ghost.updates) && ghost.updateOK == old(ghost.updateOK) && ghost.tombstones == old(ghost.tombstones)
+//@ loop 8 invariant ghost.created == old(ghost.created) + $index + 1 && ghost.creates == old(ghost.creates) + $index + 1 && ghost.closeOK == old(ghost.closeOK) + $index + 1 && len(writeOps) == $index + 1
+//@ loop 9 invariant -1 <= $index && $index < len(writeOps) && ghost.updates == old(ghost.updates) && ghost.updateOK == old(ghost.updateOK)
+//@ loop 9 invariant ghost.tombstones - old(ghost.tombstones) == ghost.created - old(ghost.created) - len(writeOps) + $index + 1
+//@ loop 11 invariant -1 <= $index && $index < len(writeOps) && ghost.updates == old(ghost.updates) + 1 && ghost.updateOK == old(ghost.updateOK)
+//@ loop 11 invariant ghost.tombstones == old(ghost.tombstones) + $index + 1 && ghost.created == old(ghost.created) + len(writeOps)
+//@ loop 11 invariant ghost.tombstonesAtUpdate == old(ghost.tombstones) && ghost.closeOKAtUpdate == old(ghost.closeOK) + len(writeOps)
+//@ loop 12 invariant ghost.updates == old(ghost.updates) + 1 && ghost.updateOK == old(ghost.updateOK) + 1
+//@ loop 12 invariant ghost.tombstonesAtUpdate == old(ghost.tombstones) && ghost.closeOKAtUpdate - old(ghost.closeOK) == ghost.created - old(ghost.created)
+//@ ensures ghost.updates <= old(ghost.updates) + 1
+//@ ensures result1 == nil ==> ghost.updateOK == old(ghost.updateOK) + 1 || (ghost.updates == old(ghost.updates) && ghost.creates == old(ghost.creates))
+//@ ensures result0 != nil && result1 != nil ==> ghost.updateOK == old(ghost.updateOK) + 1
+//@ ensures ghost.updateOK == old(ghost.updateOK) && ghost.creates > old(ghost.creates) ==> result0 == nil && result1 != nil
+//@ ensures ghost.updates > old(ghost.updates) ==> ghost.tombstonesAtUpdate == old(ghost.tombstones) && ghost.closeOKAtUpdate - old(ghost.closeOK) == ghost.created - old(ghost.created)
+//@ ensures ghost.updateOK == old(ghost.updateOK) ==> ghost.tombstones - old(ghost.tombstones) == ghost.created - old(ghost.created)
 
 // ---------------------------------------------------------------------------
 // min_max.go
